@@ -88,8 +88,9 @@ class C07(Property):
             if ctx.out_of_time():
                 ctx.extra["incomplete"] = True
                 break
-            if i >= 20 and ctx.tier == "quick" and ctx.time_left() < 0.5 * self.quick_budget_s:
-                # heavily loaded machine: the plan is "up to n workflows", at least 20 (the corpus included)
+            if ctx.mode == "check" and ((i >= 20 and ctx.tier == "quick" and ctx.time_left() < 0.5 * self.quick_budget_s) or
+                                        (i >= 60 and ctx.tier == "thorough" and ctx.time_left() < 0.4 * self.thorough_budget_s)):
+                # heavily loaded machine: the plan is "up to n workflows", at least 20 (quick) / 60 (thorough), corpus included
                 ctx.notes.append(f"soft time limit: stopped after {i} of {n} planned workflows")
                 break
             feats = {"exec": 4} if rng.random() < 0.35 else ({"cart": 4, "gather": 6} if rng.random() < 0.25 else ({"loop": 3} if rng.random() < 0.25 else None))
